@@ -340,6 +340,70 @@ def fromConfig (σ : List Name → List Name) (cfgs : List AgentCfg) : Except Er
   if hasCycle graph then .error .cycle
   else updateAgents (.dict []) { agents := as, order := topoSort graph, stepCounter := 0 }
 
+/-- a reward component as the configuration file declares it -/
+inductive CompCfg
+  /-- a registered type with options its schema accepts -/
+  | known (c : Comp)
+  /-- a `type` that is not in `AbstractReward._registry` (no such component, or a plugin that was not imported) -/
+  | unknownType (type : String)
+  /-- a registered type whose entry violates the schema (missing / extra / ill-typed option or weight, no `type` key) -/
+  | invalid
+deriving Repr
+
+def CompCfg.isUnknown : CompCfg → Bool
+  | .unknownType _ => true
+  | _ => false
+
+def CompCfg.isInvalid : CompCfg → Bool
+  | .invalid => true
+  | _ => false
+
+def CompCfg.isKnown : CompCfg → Bool
+  | .known _ => true
+  | _ => false
+
+def CompCfg.toComp? : CompCfg → Option Comp
+  | .known c => some c
+  | _ => none
+
+structure AgentCfgRaw where
+  ref : Name
+  comps : List (CompCfg × Val)
+deriving Repr
+
+/-- constructing one agent's `RewardFunction.ConfigSchema`: an unregistered type raises `KeyError` out of the `before` validator
+at once (`AbstractReward._registry[rew_type]`), wherever it stands in the list; otherwise schema violations are collected into a
+pydantic `ValidationError` -/
+def checkAgent (a : AgentCfgRaw) : Except Err AgentCfg :=
+  if a.comps.any (fun cw => cw.1.isUnknown) then .error .keyError
+  else if a.comps.any (fun cw => cw.1.isInvalid) then .error .validationError
+  else .ok { ref := a.ref, comps := a.comps.filterMap (fun cw => cw.1.toComp?.map (fun c => (c, cw.2))) }
+
+/-- the agents are constructed in declaration order, before any reward sharing is set up: the first one that cannot be built
+ends `from_config` -/
+def checkCfg : List AgentCfgRaw → Except Err (List AgentCfg)
+  | [] => .ok []
+  | a :: rest =>
+    match checkAgent a with
+    | .error e => .error e
+    | .ok c =>
+      match checkCfg rest with
+      | .error e => .error e
+      | .ok cs => .ok (c :: cs)
+
+/-- `PrimaiteGame.from_config` on a configuration as written (component types not yet resolved) -/
+def fromConfigRaw (σ : List Name → List Name) (raw : List AgentCfgRaw) : Except Err Game :=
+  match checkCfg raw with
+  | .error e => .error e
+  | .ok cfgs => fromConfig σ cfgs
+
+/-- what the agent's newest history item holds in `reward_info` after `update_reward`: every `GreenAdminDatabaseUnreachablePenalty`
+overwrites it, in component order (the last one wins); no such component leaves it as `process_action_response` made it (`{}`) -/
+def rewardInfoAfter (it : Item) : List (Comp × Val) → PyVal
+  | [] => it.rewardInfo
+  | (.greenDb n _ _, _) :: rest => rewardInfoAfter { it with rewardInfo := greenDbRewardInfo it n } rest
+  | _ :: rest => rewardInfoAfter it rest
+
 /-- `apply_agent_actions`: every agent (dict order) gets exactly one new history item; `items` is what each agent's
 `get_action` / `format_request` / the simulator's response produce this step -/
 def act (items : Name → Item) (g : Game) : Game :=
@@ -398,5 +462,11 @@ def resetEnv (σ : List Name → List Name) (cfgs : List AgentCfg) (s0 : SimStat
   match fromConfig σ cfgs with
   | .error e => .error e
   | .ok g => updateAgents s0 g
+
+/-- `reset` with an episode schedule: episode `ep` is built from the configuration the scheduler returns for it -/
+def resetEnvRaw (σ : List Name → List Name) (schedule : Nat → List AgentCfgRaw) (ep : Nat) (s0 : SimState) : Except Err Game :=
+  match checkCfg (schedule ep) with
+  | .error e => .error e
+  | .ok cfgs => resetEnv σ cfgs s0
 
 end Primaite.Reward
